@@ -23,6 +23,26 @@ Row(cs) == Join(<<Semi>>, [d \in 1..Len(cs) |-> Fmt6(cs[d])])
 (* header: "<name> (<unit>)" per dimension joined with ';' *)
 Field(name, unit) == name \o <<Space, LPar>> \o unit \o <<RPar>>
 Header(names, units) == Join(<<Semi>>, [d \in 1..Len(names) |-> Field(names[d], units[d])])
+(* Line breaks (LF, CR LF, CR) inside a semantics string must not break the header line: *)
+(* every break becomes one blank, a break at the very end is dropped (splitlines + join). *)
+IsBreak(c) == c = 10 \/ c = 13
+RECURSIVE Flat(_)
+Flat(s) == IF s = <<>> THEN <<>>
+           ELSE IF s[1] = 13 /\ Len(s) >= 2 /\ s[2] = 10
+                THEN (IF Len(s) = 2 THEN <<>> ELSE <<Space>> \o Flat(SubSeq(s, 3, Len(s))))
+           ELSE IF IsBreak(s[1]) THEN (IF Len(s) = 1 THEN <<>> ELSE <<Space>> \o Flat(Tail(s)))
+           ELSE <<s[1]>> \o Flat(Tail(s))
+(* the lines a reader sees in a text *)
+RECURSIVE SplitBreaks(_, _)
+SplitBreaks(s, cur) ==
+    IF s = <<>> THEN <<cur>>
+    ELSE IF s[1] = 13 /\ Len(s) >= 2 /\ s[2] = 10 THEN <<cur>> \o SplitBreaks(SubSeq(s, 3, Len(s)), <<>>)
+    ELSE IF IsBreak(s[1]) THEN <<cur>> \o SplitBreaks(Tail(s), <<>>)
+    ELSE SplitBreaks(Tail(s), Append(cur, s[1]))
+HasBreak(s) == \E i \in 1..Len(s) : IsBreak(s[i])
+(* the characters of a text without blanks and line breaks *)
+Solid(s) == SelectSeq(s, LAMBDA c : ~IsBreak(c) /\ c # Space)
+
 (* get_default_semantics: "Variable <d>", "arb. unit" *)
 DefaultName(d) == <<86, 97, 114, 105, 97, 98, 108, 101, 32>> \o Digits(d)
 DefaultUnit == <<97, 114, 98, 46, 32, 117, 110, 105, 116>>
